@@ -168,6 +168,64 @@ def m9_trace_find_spec():
         print(f"\\t{unparse(statement).strip()}{note}")''')
 
 
+@mut
+def m10_monkeypatch_out_of_scope():
+    """a module OUTSIDE the extractor's scope (fickling/__init__.py) monkey-patches Global.run so that it
+    imports the named module: invisible to the call graph, caught by the runtime monitor alone"""
+    p = os.path.join(REPO, "fickling/__init__.py")
+    with open(p, "a") as f:
+        f.write('''
+from . import fickle as _fickle
+_orig_global_run = _fickle.Global.run
+
+
+def _validating_run(self, interpreter):
+    try:
+        __import__(self.module)
+    except Exception:
+        pass
+    return _orig_global_run(self, interpreter)
+
+
+_fickle.Global.run = _validating_run
+''')
+
+
+@mut
+def m11_step_fallback_real_vm():
+    """Interpreter.step asks the real unpickler for the value when an opcode has no run() (PERSID)"""
+    sub("fickling/fickle.py", '''        self.stack.opcode = opcode
+        opcode.run(self)
+        return opcode''', '''        self.stack.opcode = opcode
+        try:
+            opcode.run(self)
+        except NotImplementedError:
+            import pickle as _pickle
+            try:
+                self.stack.append(make_constant(_pickle.loads(self.pickled.dumps())))
+            except Exception:
+                raise NotImplementedError(f"TODO: Add support for Pickle opcode {opcode.info.name}")
+        return opcode''')
+
+
+@mut
+def m12_load_fallback_unknown_opcode():
+    """Pickled.load falls back to the stock unpickler for an opcode fickling has no class for (FLOAT, EXT1..)"""
+    sub("fickling/fickle.py", '''                    opcodes.append(Opcode(info=info, argument=arg, data=data, position=pos))''',
+        '''                    try:
+                        opcodes.append(Opcode(info=info, argument=arg, data=data, position=pos))
+                    except NotImplementedError:
+                        import pickle as _pickle
+                        here = pickled.tell()
+                        pickled.seek(first_pos)
+                        try:
+                            _pickle.load(pickled)  # can the stock unpickler cope with it?
+                        except Exception:
+                            pass
+                        pickled.seek(here)
+                        raise''')
+
+
 # ------------------------------------------------------------------ harmless refactors
 @mut
 def h1_rename_helper():
